@@ -72,6 +72,21 @@ Proof. exact voting_power_guard. Qed.
 Theorem C11_voting_power_overflow_refuted : voting_power_gen (2 ^ 130 * 10 ^ 18) (2 ^ 130) = Panic.
 Proof. exact voting_power_overflow. Qed.
 
+(* a pending undelegation reached by ANY number of slashes of ANY non-negative proportions keeps a completable amount in
+   [0, previous], so its maturity in delegation EndBlock never builds a negative coin (native token) - and a negative
+   amount WOULD halt the block end *)
+Theorem C11_slashed_undelegation_nonneg : forall amount ps, 0 <= amount -> Forall (fun p => 0 <= p) ps ->
+  Forall (fun a => 0 <= a) (slash_undel_all amount amount ps).
+Proof. intros amount ps Ha HF. apply slash_undel_all_nonneg; assumption. Qed.
+Theorem C11_undelegation_maturity_no_panic : forall native amount ps, 0 <= amount -> Forall (fun p => 0 <= p) ps ->
+  complete_gen native (last_actual amount ps) = Ok (last_actual amount ps).
+Proof. exact undelegation_maturity_no_panic. Qed.
+Theorem C11_maturity_guard_is_needed : forall a, a < 0 -> complete_gen true a = Panic.
+Proof. exact complete_negative_native. Qed.
+Example C11_ex_two_slashes :
+  slash_undel_all 1000000 1000000 [600000000000000000; 857000000000000000] = [400000; 0].
+Proof. reflexivity. Qed.
+
 (* the full statement - no history halts the chain - is therefore NOT proved: the event set of [run] leaves out the
    arithmetic overflow guards of sdk.Int / LegacyDec (refuted above for the voting power) and everything listed as not
    modelled in design/C11.md *)
